@@ -247,12 +247,12 @@ def cases(seed, tier, shard, nshards):
     # every hand-written document once, whatever the seed (the watched statements must not depend on the draw)
     for i in common.sharded(len(HOSTILE) * len(PROBES), shard, nshards):
         h, q = divmod(i, len(PROBES))
-        yield {'A': [list(HOSTILE[h])], 'B': ['probe', PROBES[q]], 'render': i % 7 == 0, 'renderer': 'HTML5' if i % 2 else 'XHTML'}
+        yield {'A': [list(HOSTILE[h])], 'B': ['probe', PROBES[q]], 'render': i % 7 == 0, 'renderer': RENDERERS[(i // 7) % len(RENDERERS)]}
     for i in common.sharded(len(PKG_PAIRS) * 4, shard, nshards):
         name, a, b = PKG_PAIRS[i // 4]
         if i % 2:
             a, b = b, a
-        yield {'A': [['package-setting:' + name, a]], 'B': ['probe', b], 'render': i % 4 >= 2, 'renderer': 'HTML5' if (i // 4) % 2 else 'XHTML', 'pair': name}
+        yield {'A': [['package-setting:' + name, a]], 'B': ['probe', b], 'render': i % 4 >= 2, 'renderer': RENDERERS[(i // 4) % len(RENDERERS)], 'pair': name}
     # every package and class of the distribution, loaded by an otherwise empty document, followed by a document that uses the
     # standard macros (what a package does to shared classes when it is imported shows in the holders and in that document)
     names = package_names()
@@ -270,7 +270,7 @@ def cases(seed, tier, shard, nshards):
             B = gen_doc(r)
             while B[0].startswith(('open-', 'borrowed:')) or B[0] in ('verbatim-open', 'catcodes', 'openout'):
                 B = gen_doc(r)
-        yield {'A': [list(a) for a in As], 'B': list(B), 'render': r.random() < 0.5, 'renderer': r.choice(['HTML5', 'XHTML'])}
+        yield {'A': [list(a) for a in As], 'B': list(B), 'render': r.random() < 0.5, 'renderer': r.choice(RENDERERS)}
 
 
 # ---------------------------------------------------------------------------
@@ -285,6 +285,39 @@ def install_custom(tex, doc):
     if not _custom:
         _custom.append(type('zqmuargs', (plasTeX.Command,), {'args': 'a:MuDimen b:MuGlue', 'macroName': 'zqmuargs'}))
     doc.context.addGlobal('zqmuargs', _custom[0])
+
+
+# (the EPUB renderer is left out: it raises IndexError on a document without a sectioning unit, so most of the
+# documents here would not be 'processed to completion' under it)
+RENDERERS = ['HTML5', 'XHTML', 'HTML5', 'XHTML', 'Text', 'ManPage', 'DocBook', 'S5']
+
+
+def read_files(outdir):
+    """every text file a renderer wrote (whatever its extension: .html, .txt, .man, .xml, .opf ...)"""
+    out = {}
+    for root, dirs, files in os.walk(outdir):
+        for f in files:
+            if f.endswith(('.paux', '.epub', '.png', '.svg', '.gif', '.jpg', '.css', '.js', '.ico', '.woff', '.ttf', '.eot')):
+                continue
+            p_ = os.path.join(root, f)
+            try:
+                out[os.path.relpath(p_, outdir)] = open(p_, 'rb').read().decode('utf-8', 'replace')
+            except OSError:
+                pass
+    return out
+
+
+def unmix_after_failed_render(renderer):
+    import importlib
+    from plasTeX.DOM import Node
+    from plasTeX import Renderers
+    try:
+        cls = importlib.import_module('plasTeX.Renderers.' + renderer).Renderer
+        if 'renderer' in vars(Node):
+            del Node.renderer
+        Renderers.unmix(Node, cls.renderableClass)
+    except Exception:
+        pass
 
 
 def process(src, render, renderer='HTML5'):
@@ -306,10 +339,14 @@ def process(src, render, renderer='HTML5'):
     try:
         out = R.render(src, renderer, before_parse=install_custom)
     except Exception as e:
+        # the document was not processed to completion (some renderers raise on some documents: Text on narrow table
+        # cells, ManPage on verbatim ...): outside the property; take the renderer's mix-ins off Node again, which
+        # Renderer.render does at its end, so that the other documents of this worker are not affected
+        unmix_after_failed_render(renderer)
         return {'xml': '', 'files': {}, 'error': type(e).__name__ + ':' + str(e)[:100]}
     try:
         xml = R.canon_ids(out.doc.toXML(), table)
-        pages = R.read_output(out.outdir)
+        pages = read_files(out.outdir)
         files = {n: R.canon_ids(pages[n], table) for n in sorted(pages)}
         return {'xml': xml, 'files': files, 'error': None}
     finally:
